@@ -114,8 +114,8 @@ def obligations(tier):
         obs.append(Ob(f"override[{cname}]", ob_funnel(("C", "D3"), cname, "ext"), 300))
     for names in (("C",), ("D3", "C")) + ((("P3",), ("B2",)) if th else ()):
         for mode in ("serial", "thread"):
-            n = 3 if th and mode == "serial" and len(names) == 1 else 2
-            cycles = 2 if flat_size(names) == 1 else 1
+            n = 3 if th and mode == "serial" and names == ("C",) else 2
+            cycles = 2 if names == ("C",) else 1          # (permutation agents: 6 stream orders + 6 key orders each)
             if mode == "thread" and flat_size(names) > 1 and not th:
                 continue
             obs.append(Ob(f"optimize[{'+'.join(names)},{mode},n={n},cycles={cycles}]",
